@@ -102,7 +102,9 @@ def conf_e2e_monitor(case, il, sl):
 
 
 def suites(tier, seed):
-    return [Suite("confirm-backlog-e2e", "confe2e", lambda: [Case("e%d" % n, ["run %d" % n], {"keep_prefix": 0}) for n in ([300, 6000] if tier == "quick" else [1, 300, 4096, 4097, 6000, 20000, 70000])],
+    return [Suite("listener-mid-content", "machine", lambda: mg.listener_mid_content_cases(Rng(seed + 35)), monitor=monitor, nontrivial=lambda c, il: True, canon=mg.canon_nondet, candidate_ok=mg.candidate_ok, exhaustive=True,
+                  rule="a return / confirm / blocked listener registered or replaced between the method and the header, or between the header and the body, of a returned message / delivery / get answer on the same channel: the message completes and reaches the listener that is current when it completes"),
+            Suite("confirm-backlog-e2e", "confe2e", lambda: [Case("e%d" % n, ["run %d" % n], {"keep_prefix": 0}) for n in ([300, 6000] if tier == "quick" else [1, 300, 4096, 4097, 6000, 20000, 70000])],
                   monitor=conf_e2e_monitor, nontrivial=lambda c, il: True, compare=False, shards=4, timeout=300,
                   rule="public API end to end (real I/O thread, mock transport, broker acking every publish): listen_for_publisher_confirms, N publishes with nobody reading the listener, a round trip on another channel, then the listener is read: Ack 1..N in order (N = 300, 6000; thorough up to 70 000)"),
             Suite("listener-backlog", "machine", lambda: [mg.backlog_cases(Rng(seed + 33), "confirm", 6000), mg.backlog_cases(Rng(seed + 34), "return", 3000)], monitor=monitor, nontrivial=lambda c, il: True, canon=mg.canon_nondet, shrink=False, timeout=600,
